@@ -21,6 +21,7 @@ ASSUMPTIONS = ["CPython's re module is the trusted oracle",
                "back-references, (?...), empty branches or groups, {,n} {m,}",
                "feature classes tied to open findings are not generated (counted in excluded_by_finding)"]
 BUDGET = {"quick": 250, "thorough": 3000}
+FUZZ = {"procs": 8, "runs": 6000}      # atheris supplement of the thorough tier (vlib/fuzz.py)
 WATCHDOG = 60
 
 LIT = list("abcxyzdws019_AZ ")
